@@ -335,6 +335,7 @@ def run(ctx):
 
     keys.append(("zoo", "unionzoo"))
     keys.append(("samename", "samename"))
+    keys.append(("enumbase", "enumbase"))
 
     def same_name():
         """a local and an imported record (and enum) that share their unqualified name and differ in layout, both used from the same namespace;
@@ -375,7 +376,7 @@ def run(ctx):
 
     def one(item):
         kind, key = item
-        pkg = same_name() if kind == "samename" else union_zoo() if kind == "zoo" else (corpus.ser_package(key, depth=3) if kind == "ser" else evo.evo_base(key))
+        pkg = same_name() if kind == "samename" else union_zoo() if kind == "zoo" else corpus.enum_base_package() if kind == "enumbase" else (corpus.ser_package(key, depth=3) if kind == "ser" else evo.evo_base(key))
         root = os.path.join(ctx.workdir, "cases", key)
         shutil.rmtree(root, ignore_errors=True)
         outs = emit.default_outputs("../out", matlab=True, cpp=False)
